@@ -43,6 +43,26 @@ var commonTrusted = []string{
 // obligations in c under rule id `as` (the original id is kept in the site),
 // so that a property whose statement depends on another property's mechanism
 // also reports a break of that mechanism under its own id.
+// includeOnly is include restricted to the named original rule ids.
+func includeOnly(c *eng.Ctx, as string, run func(*eng.Ctx), only ...string) {
+	sub := eng.NewCtx(c.P, c.Prop)
+	run(sub)
+	for _, o := range sub.Obs {
+		keep := false
+		for _, r := range only {
+			if o.Rule == r {
+				keep = true
+			}
+		}
+		if !keep {
+			continue
+		}
+		o.Site = "[" + o.Rule + "] " + o.Site
+		o.Rule = as
+		c.Obs = append(c.Obs, o)
+	}
+}
+
 func include(c *eng.Ctx, as string, run func(*eng.Ctx)) {
 	sub := eng.NewCtx(c.P, c.Prop)
 	run(sub)
